@@ -1913,6 +1913,12 @@ func (f *fnTrans) atAnchor(ins ssa.Instruction) {
 	}
 	env := f.env(f.curB, f.cur, extra)
 	for k, cl := range cls {
+		if cl.Kind == "ghostset" {
+			eq := strings.Index(cl.Src, "=")
+			genv := *env
+			f.ghostSet(&genv, strings.TrimSpace(cl.Src[:eq]), strings.TrimSpace(cl.Src[eq+1:]))
+			continue
+		}
 		t, err := env.EvalBool(cl.Expr)
 		if err != nil {
 			if cl.Kind != "assume" && strings.Contains(err.Error(), "unknown identifier") {
